@@ -143,7 +143,7 @@ theorem finishLine_dead (act : Act) (m m' : Mon) (h : finishLine act m = .ok m')
   · by_cases hr : (m.dead || residueOK m) = true
     · simp only [hr, if_true] at h; cases h; rfl
     · simp only [hr] at h
-      by_cases hneg : m.configured + m.over - m.conn < 0 <;> simp [hneg] at h
+      by_cases hneg : m.configured - m.conn < 0 <;> simp [hneg] at h
   · cases h; rfl
 
 /-- **Within the window ⇒ never FLOW_CONTROL_ERROR.** If an accepted line on a live connection
